@@ -18,6 +18,7 @@ import (
 	"github.com/ucan-wg/go-ucan/pkg/command"
 	"github.com/ucan-wg/go-ucan/pkg/meta"
 	"github.com/ucan-wg/go-ucan/pkg/policy"
+	"github.com/ucan-wg/go-ucan/pkg/policy/limits"
 	"github.com/ucan-wg/go-ucan/token/internal/nonce"
 	"github.com/ucan-wg/go-ucan/token/internal/parse"
 )
@@ -175,6 +176,16 @@ func (t *Token) validate() error {
 	if len(t.nonce) < 12 {
 		errs = errors.Join(errs, fmt.Errorf("token nonce too small"))
 	}
+
+	// timestamps are 53-bits integers on the wire, and are rejected when decoding otherwise
+	safeTimestamp := func(ts *time.Time, fieldname string) {
+		if ts != nil && (ts.Unix() > limits.MaxInt53 || ts.Unix() < limits.MinInt53) {
+			errs = errors.Join(errs, fmt.Errorf("%s exceeds safe integer bounds: %d", fieldname, ts.Unix()))
+		}
+	}
+
+	safeTimestamp(t.notBefore, "NotBefore")
+	safeTimestamp(t.expiration, "Expiration")
 
 	return errs
 }
